@@ -904,6 +904,32 @@ impl<'a> Collector<'a> {
       expr::IfElseOrBlock::IfElse(n) => self.if_else(n),
       expr::IfElseOrBlock::Block(b) => self.block(b),
     }
+    // branch-type: the branches of an if / else-if chain must all have the same type (spec.md 6.10);
+    // the value of one branch of an int-typed conditional is replaced by a string literal. The OTHER
+    // branches stay int, so whichever branch fixes the type of the chain, the chain is ill-typed.
+    if is_int(&i.common.type_) {
+      let mut branches: Vec<&expr::Block<T>> = vec![&i.e1];
+      if let expr::IfElseOrBlock::Block(b) = i.e2.as_ref() {
+        branches.push(b);
+      }
+      for (sub, b) in [("then", branches[0])].into_iter().chain(branches.get(1).map(|b| ("else", *b))) {
+        let Some(value) = &b.expression else { continue };
+        if !is_int(value.type_()) {
+          continue;
+        }
+        let l = value.loc();
+        if let (Some((a0, b0)), Some((s, en))) = (self.range(&l, "expr"), self.text.span(&l)) {
+          self.push(
+            "operand-type",
+            if sub == "then" { "branch-then" } else { "branch-else" },
+            s,
+            en,
+            "\"s\"".into(),
+            vec![Splice { at: a0, del: b0 - a0, ins: vec!["Str(s)".into()] }],
+          );
+        }
+      }
+    }
   }
 
   fn member_access(
